@@ -289,13 +289,17 @@ class C17:
             for ri in seq:
                 data = urllib.parse.urlencode(REQUESTS[ri][1]).encode('ascii')
                 val = None
-                for attempt in range(80):
+                for attempt in range(300):
                     try:
-                        with urllib.request.urlopen('http://localhost:%d/v2/check' % port, data=data, timeout=20) as r:
+                        with urllib.request.urlopen('http://localhost:%d/v2/check' % port, data=data, timeout=60) as r:
                             val = json.loads(r.read().decode('ascii'))
                         break
                     except OSError:
+                        if p.poll() is not None:
+                            break
                         time.sleep(0.1)
+                if val is None:
+                    raise core.HarnessError('the real --as-server process did not answer (not a property violation)')
                 out.append(val)
         finally:
             p.terminate()
